@@ -69,7 +69,8 @@ PROPS["C18"] = dict(
     technique="Coq proofs of injectivity of the cookie input encoding and of the covered-field encoding, binding under an explicit HMAC-collision-freeness premise, loop invariant of the cookie exchange; correspondence recomputes every cookie with a Gallina SM3/HMAC",
     level_text="Theorems (encoding injective, binding to address/fields/secret, an unconfigured (nil or empty) secret is the connection's own draw and no other key's cookie is accepted, "
                "only HelloVerifyRequests and no key operation before a valid cookie, no amplification) proved in Coq; every cookie the Go code issues is recomputed bit for bit by an independent SM3/HMAC-SM3 written in "
-               "Gallina from the standard; a real server is fed scripted ClientHello sequences under virtual time with instrumented private keys.",
+               "Gallina from the standard; a real server is fed scripted ClientHello sequences under virtual time with instrumented private keys."
+               " Also: hellos that differ from the cookie's only by repeated / reordered / unknown suites or compression methods; the cookie of one connection presented to the next connection of the same configuration or dtlcp.NewListener (no secret configured).",
     level_note="Trusted: Coq kernel + vm_compute; HMAC idealised as collision-free (explicit premise of C18_binding); hand-written model tied by correspondence; "
                "the default per-connection random secret is the first 32 bytes the connection draws from Config.Rand, which the harness supplies (a known stream), so its cookies are recomputed too.",
     code_names={1: "cookie-bytes-differ-from-HMAC-SM3-of-unambiguous-encoding", 16: "cookie-issued-by-another-connection-of-the-listener-accepted-or-issued-again", 2: "cookie-accepted-for-other-address-fields-secret-or-bytes",
@@ -85,7 +86,7 @@ PROPS["C15"] = dict(
     level_text="Theorems for every PMTU, suite and payload size (one datagram within the maximum payload, every datagram within the path MTU, at most 16384 plaintext "
                "bytes, split in order) proved in Coq; the exact list of datagram sizes and of received pieces of every Write/WriteTo is compared with the model, and "
                "an MTU/boundary predicate independent of max_payload is evaluated on them and on the datagram sizes of every handshake."
-               " Also: configurations used through Clone, ends with different path MTUs, the server's flight sent again after a lost client flight, reads shorter than a record and a short Read followed by ReadFrom.",
+               " Also: configurations used through Clone, ends with different path MTUs, the server's flight sent again after a lost client flight, reads shorter than a record and a short Read followed by ReadFrom. Sender sequence numbers just below 2^8 ... 2^48 (hook VerifSetWriteSeq).",
     level_note="Trusted: Coq kernel + vm_compute; hand-written model tied by correspondence. K5 (empty WriteTo "
                "sent nothing), K3 (a buffered handshake flight left as one datagram) and F9 are fixed: an empty payload is one empty record (one datagram, one ReadFrom of length 0; Read skips it); "
                "flights are packed at record boundaries (theorem C15_flight_fits); the packing itself is compared with the code only through the size of every handshake datagram.",
@@ -130,7 +131,7 @@ PROPS["C07"] = dict(
     level_text="Theorems (completion implies the policy table, both certificates for ECDHE, CertificateVerify valid whenever a certificate was sent; reported peer certificates imply "
                "the proof of possession, reported verified chains imply verification; a session is resumed only under a policy it satisfies) proved in Coq; 6 policies x behaviours x "
                "ECC/ECDHE x full/resumed x both stacks are played against the real server and compared with the model on independently computed oracle answers."
-               " Also: the server's own trust settings (another CA, only RootCAs configured), its clock after the chain's validity, a client that leaves out the Certificate message, ECDHE sessions with a deviant encryption certificate under every second policy.",
+               " Also: the server's own trust settings (another CA, only RootCAs configured), its clock after the chain's validity, a client that leaves out the Certificate message, ECDHE sessions with a deviant encryption certificate under every second policy. Configurations reaching the connection through Clone / GetConfigForClient (a clone per hello; one host name served without client authentication, nil otherwise, across the cookie round).",
     level_note="Trusted: Coq kernel + vm_compute; X.509 verification and SM2 verification are oracles computed by the harness; the puppet peer.",
     code_names={1: "completed-although-policy-not-satisfied", 2: "certificate-accepted-without-proof-of-possession", 3: "peer-certificates-reported-without-proof",
                 4: "verified-chains-reported-without-verification", 5: "completed-with-wrong-Finished", 6: "resumed-under-a-policy-the-session-does-not-satisfy", 7: "ecdhe-encryption-certificate-not-verified",
@@ -145,7 +146,8 @@ PROPS["C01"] = dict(
                "generated configuration pairs (direct or cloned) are run as real handshakes of both stacks with data exchanged both ways, and the model as well as the declarative "
                "predicate are evaluated on the observed results of both sides (success/failure on both, suite, ALPN, version, resumption flag, peer certificates each side reports). "
                "Key pairs come from the Certificates list, from the Get* callbacks or one from each; a pair with session caches on both sides connects a second time and the (resumed) "
-               "connection is held to the same clauses.",
+               "connection is held to the same clauses."
+               " Also: the client's list in every order of two suites against single-suite servers (the library works on its own copies of the configured lists).",
     level_note="Trusted: Coq kernel + vm_compute; X.509 verdicts (server chain under the client's roots/name, client chain under the policy's options, issuer acceptability) are oracle inputs "
                "computed by the harness; Clone is checked by running through it (a dropped field shows as a disagreement).",
     code_names={1: "one-side-succeeded-other-failed", 2: "success-differs-from-compatibility", 3: "suite-not-first-common-in-priority-order", 4: "sides-report-different-parameters",
@@ -160,7 +162,7 @@ PROPS["C10"] = dict(
                "never resumed) proved in Coq by an invariant over event sequences; random histories (one client, three servers, cache loss, reconfiguration, forged identifiers, induced "
                "failures, capacities down to 1) are run with real connections and the model must predict for every connection the identifier offered, both resumption flags, both "
                "results and the new session."
-               " Also: forged identifiers of every legal length, and the peer identity both ends report on resumed connections.",
+               " Also: forged identifiers of every legal length, and the peer identity both ends report on resumed connections. Sessions created on every suite family under every policy, resumed twice.",
     level_note="Trusted: Coq kernel + vm_compute; session identifiers are numbered by order of creation (the 32 random bytes themselves are not modelled: freshness is relative to the RNG); "
                "fresh keys on resumption follow from fresh randoms under the cached master secret (C04 checks the derivation).",
     code_names={1: "ends-disagree-on-resumption-or-success", 2: "resumed-without-an-offered-session", 3: "failed-session-offered-again", 4: "session-identifier-reused",
@@ -176,7 +178,7 @@ PROPS["C08"] = dict(
                "completion implies the received prefix is item for item a legal flow; no application data before completion; errors are final.  Legal flows, every single omission, "
                "duplication, transposition, insertion, invalid-content variant, the 16/17 warning boundary and a pruned enumeration from the initial state are played by the puppet peer "
                "against the real endpoints of both stacks and compared with the automaton and with the language."
-               " Also: several handshake messages packed into one record (legal, and the post-ChangeCipherSpec message packed before it), ECDHE servers with default ClientAuth, and on the datagram stack a peer that itself follows the deviant order with a real ChangeCipherSpec (judged on completion only).",
+               " Also: several handshake messages packed into one record (legal, and the post-ChangeCipherSpec message packed before it), ECDHE servers with default ClientAuth, and on the datagram stack a peer that itself follows the deviant order with a real ChangeCipherSpec (judged on completion only). Empty application_data records at every position; a datagram peer that leaves the ChangeCipherSpec out and carries on in its new epoch.",
     level_note="Trusted: Coq kernel + vm_compute; the event abstraction (one record = one event; `ok` = the contents pass the receiver's checks, which C02/C07 analyse); the puppet peer. "
                "Datagram stack: the language is the standard's flows modulo the records a datagram endpoint must drop to survive loss and reordering (C19): records of another epoch / replayed, "
                "a ChangeCipherSpec it cannot use yet, handshake records while the ChangeCipherSpec is awaited, retransmitted ClientHellos; theorem dclient/dserver_refines_stream ties every completion "
@@ -193,7 +195,7 @@ PROPS["C05"] = dict(
                "injected record; error latched; single CBC alert) proved in Coq; flips at header and body positions, drop, duplicate, swap, truncation at and inside boundaries, injected "
                "records of every content type, genuine non-application records and the 16/17 ignored-record boundary are run against real TLCP endpoints in both modes and directions, "
                "and the model must predict delivered bytes, the ending (EOF / unexpected EOF / which alert) and the latched second read."
-               " Also: injected records of every length below a nonce / a MAC and of every content type, and a receiver that has half-closed before the attacked stream arrives.",
+               " Also: injected records of every length below a nonce / a MAC and of every content type, and a receiver that has half-closed before the attacked stream arrives. Streams cut exactly at record boundaries and attacked streams over a transport that returns the last bytes together with io.EOF.",
     level_note="Trusted: Coq kernel + vm_compute; INT-CTXT idealisation of SM4-GCM and HMAC-SM3-then-CBC with the sequence number authenticated (C04 checks the construction); the puppet peer.",
     code_names={1: "delivered-bytes-outside-intact-prefix", 2: "error-not-latched", 3: "intact-prefix-not-fully-delivered", 4: "cbc-damage-answered-by-other-alert", "hang": "hang"},
     assumptions=["authenticated decryption rejects every record that is not byte-identical to the one sealed with the expected sequence number"],
@@ -208,7 +210,9 @@ PROPS["C04"] = dict(
                "authentication x TLCP/DTLCP, random application writes both ways) Coq derives the master secret from the pre-master secret and the hello randoms, cuts the key block, opens every "
                "protected wire record of each direction under that direction's key and sequence number, recomputes both Finished values from the SM3 transcript, and compares plaintexts, "
                "master secrets of both session caches and per-record nonces/IVs."
-               " Datagram captures continue at record sequence numbers above 2^32.",
+               " Datagram captures continue at record sequence numbers above 2^32."
+               " ECDHE suites are also run against a puppet peer with its own implementation of the SM2 key agreement (both roles, both stacks): completion and data both ways mean the pre-master secret is the standard's."
+               " The key / MAC / IV lengths of the specification are proved equal to the rows of the library's cipherSuites table as regenerated from the sources (C04_key_lengths_are_the_sources).",
     level_note="Trusted: Coq kernel + vm_compute; the specification (Spec/SM3, SM4, Modes, PRF, RecordProt) is a hand-written reading of the standards, validated inside Coq on the GB/T 32905 and GB/T 32907 "
                "vectors and on CBC/GCM vectors produced once with gmsm. ECC suites: the pre-master secret is obtained by decrypting the captured ClientKeyExchange with the server's encryption key "
                "using gmsm (SM2 decryption trusted). ECDHE suites: the master secret is taken from the session caches (SM2 key agreement trusted) and everything downstream is checked. "
@@ -245,7 +249,7 @@ PROPS["C03"] = dict(
                "Correspondence per run of bin/check: ~4,300 (quick) / ~28,000 (thorough: every byte position x 3 masks of a full and a resumed handshake per stack, every record-level edit, "
                "4 suites x full/resumed x client authentication x 2 stacks) tampered handshakes between real endpoints; the model predicts which endpoint completes (and, at the record / order "
                "level, that the refusing endpoint refuses by itself); the property is evaluated on ConnectionState, session caches, recorded Finished values and peer certificates of both endpoints."
-               " Also: every ChangeCipherSpec record of a direction removed (datagram stack), with a property-level code for a completion without one.",
+               " Also: every ChangeCipherSpec record of a direction removed (datagram stack), with a property-level code for a completion without one. Injected body-less handshake messages of every kind of type code (hello_request, known, unassigned).",
     level_note="Trusted: Coq kernel + vm_compute; the idealisations (SM3 collision-free, PRF(k,label,.) injective in (label, digest), an accepted verify_data was written by one of the two "
                "endpoints: the adversary holds no master secret -- authentication of the key exchange is C02/C07); the hand-written model (contents checks are parameters: the theorems hold for "
                "all of them, so nothing about X.509 / SM2 is assumed); the harness (tk.Wire / tk.VNet middle, recording session caches, puppet peer). "
@@ -413,7 +417,7 @@ PROPS["C09"] = dict(
                "for every datagram sequence; the record reader does not recurse (constant call depth).  The parser models are evaluated in Coq on the bodies the Go parsers were called with (class of the result and what reached gmsm must agree), the machines on scripted "
                "record sequences against real endpoints at five handshake states (buffer sizes after every step must agree), and the bound predicates on the maxima observed in puppet-driven scenarios "
                "(malformed message at every state, floods, garbage, foreign key types; both roles, both stacks)."
-               " Also: every message omitted at every state, servers under every certificate-requesting policy, fragments of one message that disagree about the total length.",
+               " Also: every message omitted at every state, servers under every certificate-requesting policy, fragments of one message that disagree about the total length. CBC records under the connection key whose content is nothing but valid padding.",
     level_note="Trusted: Coq kernel + vm_compute; hand-written models tied by correspondence; X.509 / ASN.1 parsing and gmsm are exercised, not modelled (oracle arguments of the theorems); "
                "bytes.Buffer capacity growth and the Go allocator are not modelled (the observed capacity of rawInput is checked against a fixed constant); the time-based cleanup of stale "
                "reassembly buffers is not modelled (it only removes); K12, K13, K14, K15 are repaired in the library (1e7de38, 593205a, 6b259b8, bfc7028): their bounds are theorems, the code before each fix is kept as a regression definition "
